@@ -8,8 +8,7 @@ EXTENDS Int64, TLC
 CONSTANTS SmallN
 VARIABLES a, b, mode
 
-RECURSIVE Pow2I(_)
-Pow2I(k) == IF k = 0 THEN FromNat(1) ELSE LET h == Pow2I(k - 1) IN AddRaw(h, h)
+Pow2I(k) == Mk(0, [i \in 1..5 |-> IF i = (k \div 15) + 1 THEN Pow2[(k % 15) + 1] ELSE 0])      \* 2^k, k < 75
 P(x, d) == AddRaw(x, FromInt(d))
 EdgePool ==
   {MinInt, P(MinInt, 1), P(MinInt, 2), MaxInt, P(MaxInt, -1), P(MaxInt, -2),
